@@ -80,9 +80,9 @@ def plan(tier, seed):
                 shards.append(dict(name=f'park-{ck}-{part}', mode='rt', kind='park',
                                    clock=ck, max_cases=100000, secs=420, part=part,
                                    parts=2, hard_timeout=600))
-        for i in range(2):
-            shards.append(dict(name=f'clear{i}', mode='rt', kind='clear', rounds=25,
-                               hard_timeout=300))
+        for i in range(4):
+            shards.append(dict(name=f'clear{i}', mode='rt', kind='clear', rounds=14,
+                               hard_timeout=700))
     return shards
 
 
